@@ -10,7 +10,7 @@
    error).  That table is the codec the model is instantiated with; message
    values are identified with the pool index of their canonical encoding. *)
 From Coq Require Import List NArith Bool Arith.
-From Coq Require Import Init.Byte.
+From Coq Require Export Init.Byte.
 From Onet Require Export Base.Corr Base.BytesC03 Net.Frame Net.Marshal.
 Import ListNotations.
 
@@ -39,9 +39,32 @@ Inductive cev :=
 
 Inductive dobs := DOValue (k : nat) | DOError | DOPanic.
 
+Inductive cutspec :=
+| Cuts (l : list N)      (* segment lengths; what remains is the last segment *)
+| Every (k : N).         (* segments of k bytes each *)
+
+Fixpoint cut_list (cuts : list N) (s : bytes) : list bytes :=
+  match cuts with
+  | [] => [s]
+  | c :: r => takeN c s :: cut_list r (dropN c s)
+  end.
+
+Fixpoint cut_every (fuel : nat) (k : N) (s : bytes) : list bytes :=
+  match fuel, s with
+  | O, _ => [s]
+  | _, [] => []
+  | S f, _ => takeN k s :: cut_every f k (dropN k s)
+  end.
+
+Definition cut_segs (c : cutspec) (s : bytes) : list bytes :=
+  match c with
+  | Cuts l => cut_list l s
+  | Every k => if (k =? 0)%N then [s] else cut_every (length s) k s
+  end.
+
 Inductive case :=
 | CStream (lv : level) (limit : N) (ident : option nat) (pool : list pentry) (items : list item)
-          (cuts : list N)          (* segment lengths; what remains is the last segment *)
+          (cuts : cutspec)         (* how the stream was cut into segments *)
           (wire : list chunk)      (* OBSERVED: the bytes the sending side put on the wire *)
           (sends : list bool)      (* OBSERVED: Send returned nil, per IMsg *)
           (evs : list cev)         (* OBSERVED at LConn: results of Receive *)
@@ -51,7 +74,9 @@ Inductive case :=
           (crash : bool)           (* OBSERVED: a panic *)
 | CDecode (pool : list pentry) (k : nat) (obs : dobs) (valeq : bool)   (* network.Unmarshal(pool[k]) *)
 | CLocal (pool : list pentry) (items : list nat) (sends : list bool)
-         (delivered : list nat) (valeq crash : bool).                  (* LocalRouter pair *)
+         (delivered : list nat) (valeq crash : bool)                   (* LocalRouter pair *)
+| CConc (pool : list pentry) (senders : list (list nat)) (sends : list bool)
+        (delivered : list nat) (valeq crash : bool).                   (* goroutines sending on ONE connection *)
 
 (* ---- the codec table ------------------------------------------------------ *)
 
@@ -100,12 +125,6 @@ Definition model_wire (pb : list bytes) (items : list item) : bytes :=
                          | IMsg k | IFrame k => send_raw (payload pb k)
                          | IRaw cs => expand pb cs
                          end) items).
-
-Fixpoint cut_segs (cuts : list N) (s : bytes) : list bytes :=
-  match cuts with
-  | [] => [s]
-  | c :: r => takeN c s :: cut_segs r (dropN c s)
-  end.
 
 Section WithTable.
   Variables (pool : list pentry) (pb : list bytes).
@@ -168,6 +187,28 @@ Definition dobs_eqb (a b : dobs) : bool :=
 
 Definition nats_eqb := list_eqb Nat.eqb.
 
+(* Concurrent Send calls on one connection are serialised by sendMutex: the
+   wire is a merge of whole frames, so (c03_delivery) what arrives is a merge of
+   the senders' sequences.  The harness gives every message a distinct value. *)
+Fixpoint pop_head (x : nat) (ss : list (list nat)) : option (list (list nat)) :=
+  match ss with
+  | [] => None
+  | [] :: r => option_map (cons []) (pop_head x r)
+  | (y :: s) :: r => if x =? y then Some (s :: r) else option_map (cons (y :: s)) (pop_head x r)
+  end.
+
+Fixpoint is_merge (d : list nat) (ss : list (list nat)) : bool :=
+  match d with
+  | [] => forallb (fun s => match s with [] => true | _ => false end) ss
+  | x :: d' => match pop_head x ss with
+               | Some ss' => is_merge d' ss'
+               | None => false
+               end
+  end.
+
+Definition conc_agree (pool : list pentry) (senders : list (list nat)) (delivered : list nat) : bool :=
+  is_merge delivered (map (model_local pool (pool_bytes pool)) senders).
+
 Definition agree (c : case) : bool :=
   match c with
   | CStream lv limit ident pool items cuts wire sends evs delivered closed _ crash =>
@@ -190,6 +231,8 @@ Definition agree (c : case) : bool :=
   | CLocal pool items sends delivered _ crash =>
       negb crash && forallb (fun b => b) sends &&
       nats_eqb delivered (model_local pool (pool_bytes pool) items)
+  | CConc pool senders sends delivered _ crash =>
+      negb crash && forallb (fun b => b) sends && conc_agree pool senders delivered
   end.
 
 Definition mismatches (l : list case) : list nat := mism_idx agree l.
@@ -226,6 +269,10 @@ Fixpoint legit_pre (cl : list icls) : list nat :=
   | KLegit j :: r => j :: legit_pre r
   | _ => []
   end.
+
+Definition conc_expected (pool : list pentry) (senders : list (list nat)) : list (list nat) :=
+  let pb := pool_bytes pool in
+  map (fun s => legit_all (map (fun k => classify 4294967295%N pool pb (IMsg k)) s)) senders.
 
 Definition is_garbage c := match c with KGarbage => true | _ => false end.
 Definition is_refused c := match c with KRefused => true | _ => false end.
@@ -311,6 +358,9 @@ Definition check (c : case) : list nat :=
       let pb := pool_bytes pool in
       let cl := map (fun k => classify 4294967295%N pool pb (IMsg k)) items in
       clause 5 (negb crash) ++ clause 4 valeq ++ clause 1 (nats_eqb delivered (legit_all cl))
+  | CConc pool senders sends delivered valeq crash =>
+      clause 5 (negb crash) ++ clause 4 valeq ++
+      clause 1 (is_merge delivered (conc_expected pool senders))
   end.
 
 Definition violations (l : list case) : list (nat * nat) := viols check l.
